@@ -86,13 +86,25 @@ pub fn replay(j: &J) -> i32 {
                 c02::case(&ctx, shard, index, &mut rep)
             }
         }
-        "C03" => c03::case(&ctx, shard, index, &mut rep),
+        "C03" => {
+            if j.get("kind").and_then(|k| k.as_str()) == Some("ladder") {
+                c03::ladder_case(&ctx, j.get("k").and_then(|k| k.as_i64()).unwrap_or(0) as usize, &mut rep)
+            } else {
+                c03::case(&ctx, shard, index, &mut rep)
+            }
+        }
         "C12" => c12::replay_shard(&ctx, shard, &mut rep),
         "C06" => c06::replay_shard(&ctx, shard, &mut rep),
         "C14" => c14::replay_shard(&ctx, shard, &mut rep),
         "C04" => c04::replay(&ctx, j, &mut rep),
         "C17" => { let (r, _) = c17::run(&ctx); rep.merge(r); }
-        "C15" => c15::case(&ctx, shard, index, &mut rep),
+        "C15" => {
+            if j.get("kind").and_then(|k| k.as_str()) == Some("ladder") {
+                c15::ladder(&ctx, j.get("k").and_then(|k| k.as_i64()).unwrap_or(0) as usize, &mut rep)
+            } else {
+                c15::case(&ctx, shard, index, &mut rep)
+            }
+        }
         "C05" => c05::replay(&ctx, j, &mut rep),
         "C10" => c10::replay(j, &mut rep),
         "C11" => c11::replay(&ctx, j, &mut rep),
